@@ -65,6 +65,37 @@ Theorem C05_window_bounds_required : forall cfg now a w,
 Proof. exact window_bounds_required. Qed.
 Print Assumptions C05_window_bounds_required.
 
+(* ---- the clock as a variable: "for every clock position" ---- *)
+(* acceptance is antitone in the clock, unconditionally: accepted now' => accepted at every instant at or before now' *)
+Theorem C05_accepted_at_every_earlier_instant : forall cfg now now' r,
+  ile now now' -> validate cfg now' r = Ok tt -> validate cfg now r = Ok tt.
+Proof. exact accepted_at_every_earlier_instant. Qed.
+Print Assumptions C05_accepted_at_every_earlier_instant.
+
+Theorem C05_rejected_at_every_later_instant : forall cfg now now' r e,
+  ile now now' -> validate cfg now r = Err e -> exists e', validate cfg now' r = Err e'.
+Proof. exact rejected_at_every_later_instant. Qed.
+Print Assumptions C05_rejected_at_every_later_instant.
+
+(* the set of accepting instants is exactly "strictly before the earliest NotOnOrAfter" *)
+Theorem C05_accepted_iff_before_earliest_bound : forall cfg r m,
+  AttrsOK (cfg_acs_url cfg) (r_destination r) (r_version r) -> r_assertions r <> [] ->
+  IssuerOK cfg (r_issuer r) -> StatusOK (r_status r) ->
+  Forall (fun a => exists noa, AssertionShapeOK cfg a noa) (r_assertions r) ->
+  (exists a, In a (r_assertions r) /\ AssertionShapeOK cfg a m) ->
+  Forall (fun a => forall noa, AssertionShapeOK cfg a noa -> ile m noa) (r_assertions r) ->
+  forall now, validate cfg now r = Ok tt <-> ilt now m.
+Proof. exact accepted_iff_before_earliest_bound. Qed.
+Print Assumptions C05_accepted_iff_before_earliest_bound.
+
+(* the instants without a time warning form an interval *)
+Theorem C05_window_is_convex : forall cfg t1 t2 t3 a w1 w2 w3,
+  verify_conditions cfg t1 a = Ok w1 -> verify_conditions cfg t2 a = Ok w2 -> verify_conditions cfg t3 a = Ok w3 ->
+  ile t1 t2 -> ile t2 t3 ->
+  w_invalid_time w1 = false -> w_invalid_time w3 = false -> w_invalid_time w2 = false.
+Proof. exact window_is_convex. Qed.
+Print Assumptions C05_window_is_convex.
+
 (* ---- tie to the source text (GenFuncs.v is re-translated from /repo's validate.go on every run) ---- *)
 From V Require Import GenPrelude GenFuncs P_GenFuncs.
 Theorem C05_source_Validate_is_the_model : forall cfg now r,
